@@ -41,18 +41,19 @@ type Obligation struct {
 
 // Ctx is one analysis run over one tree.
 type Ctx struct {
-	Repo  string
-	Tier  string
-	Fset  *token.FileSet
-	Pkgs  map[string]*packages.Package
-	Prog  *ssa.Program
-	SSA   map[string]*ssa.Package
-	Jen   *ssa.Package
-	JenP  *packages.Package
-	cache map[string][]Obligation
-	cg    *CallGraph
-	fa    map[*ssa.Function]*FnA
-	stats map[string]int
+	Repo   string
+	Tier   string
+	Fset   *token.FileSet
+	Pkgs   map[string]*packages.Package
+	Prog   *ssa.Program
+	SSA    map[string]*ssa.Package
+	Jen    *ssa.Package
+	JenP   *packages.Package
+	cache  map[string][]Obligation
+	cg     *CallGraph
+	fa     map[*ssa.Function]*FnA
+	stats  map[string]int
+	extras map[string]interface{}
 }
 
 func goEnv() []string {
@@ -270,7 +271,11 @@ type KnownFinding struct {
 }
 
 func loadKnown(verif string) []KnownFinding {
-	b, err := os.ReadFile(filepath.Join(verif, "known_findings.json"))
+	path := filepath.Join(verif, "known_findings.json")
+	if k := os.Getenv("JENLINT_KNOWN"); k != "" {
+		path = k
+	}
+	b, err := os.ReadFile(path)
 	if err != nil {
 		return nil
 	}
